@@ -176,6 +176,10 @@ def pivots(facts):
             e = strip_all(e)
             while e.get("k") == "Construct" and len(e.get("args", [])) == 1:
                 e = strip_all(e["args"][0])
+            hops = 0
+            while e.get("k") == "Ref" and e.get("d") in inl and hops < 4:      # `T* const nth = first + N;` handed over by name
+                e = strip_all(inl[e["d"]])
+                hops += 1
             if e.get("k") == "Bin" and e.get("op") == "+":
                 return txt(e["l"], inl), txt(e["r"], inl)
             if e.get("k") == "OpCall" and e.get("op") == "+" and len(e["args"]) == 2:
@@ -197,6 +201,11 @@ def pivots(facts):
                 is_theta = (l.get("k") == "Member" and l.get("f") in SEED_THETA_FIELDS) or (l.get("k") == "Ref" and l.get("n") == "theta")
                 if is_theta and r.get("k") == "OpCall" and r.get("op") == "()" and len(r["args"]) == 2:
                     x = strip_all(r["args"][1])
+                    if x.get("k") == "Un" and x.get("op") == "*":
+                        # *(first + N), also through a pointer local
+                        b0, off = offset_of(x.get("e"))
+                        if off is not None:
+                            theta_idx.append(off)
                     if x.get("k") == "Index":
                         theta_idx.append(txt(x["i"], inl))
                     elif x.get("k") == "OpCall" and x.get("op") == "[]":
